@@ -186,7 +186,7 @@ TEXTS["C15"] = {
                   "checked per execution; scenarios include two hosts through one client; the per-host ring of waiting "
                   "requests is instantiated with capacities 2, 4, 8 and driven through every enqueue/dequeue sequence of "
                   "length 16 (20) against a bounded FIFO.",
-    "level_note": NOTE_B + "; one known finding (late response after a time-out) is listed in known_findings.json",
+    "level_note": NOTE_B + "; the former known finding (late response after a time-out) is repaired in /repo (88b527f)",
 }
 
 NOT_APPLICABLE = {}
